@@ -7,6 +7,7 @@ import Pxv.Thm.C01
 import Pxv.Thm.C03
 import Pxv.Lemmas.StalemateInClass
 import Pxv.Thm.C02
+import Pxv.Lemmas.Complex
 /-!
 C04 — injection is faithful: right constructor, right scope, no illicit copies.
 
@@ -507,5 +508,25 @@ theorem stalemate_pass_only_clones_cloneable {g : Graph} (hwf : g.wellFormed = t
 -- on the ring whose second value only may be cloned: one new node (7), cloning node 1, moved into node 4
 example : (resolveStalemates exCross2).1.edges.filter (fun e => !(exCross2.edges.contains e)) =
     [⟨1, 7, .shared⟩, ⟨7, 4, .move⟩] := by decide
+
+/-- **C04 — no illicit copy by `complex_borrow_check` either**: every edge `complexCheck` (the statement-by-statement mirror
+    of the pass, compared with the real pass on every call graph) adds to a well-formed call graph is either the shared
+    borrow through which a new node clones a node of the input graph whose constructor is clone-if-necessary, or the
+    hand-over of such a new node to its consumer; new nodes are never cloned themselves; and the result is well-formed, so
+    the hypotheses of `stalemate_pass_only_clones_cloneable` hold for the pass that runs next. Whatever the traversal does
+    (parking, strategy switches, early exits of the visiting loop) is irrelevant to this. -/
+theorem complex_pass_only_clones_cloneable {g : Graph} (hwf : g.wellFormed = true) :
+    OnlyClones g (complexCheck g).g ∧ (complexCheck g).g.wellFormed = true :=
+  ⟨(complexCheck_ginv hwf).2, (complexCheck_ginv hwf).1⟩
+
+/-- the two passes in sequence -/
+theorem complex_then_stalemate_only_clone_cloneable {g : Graph} (hwf : g.wellFormed = true) :
+    OnlyClones (complexCheck g).g (resolveStalemates (complexCheck g).g).1 :=
+  stalemate_pass_only_clones_cloneable (complex_pass_only_clones_cloneable hwf).2
+
+-- `A` may be cloned, `B` may not: the one new node (5) clones `A` for `D`
+example : (exX true false).wellFormed = true ∧
+    (complexCheck (exX true false)).g.edges.filter (fun e => !((exX true false).edges.contains e)) = [⟨0, 5, .shared⟩, ⟨5, 2, .move⟩] := by
+  decide
 
 end Pxv.CG
